@@ -58,7 +58,7 @@ PROPS = {
         "title": "Result-returning math functions are total: Ok or Err, never a panic",
         "stages": [{"driver": "trans"}],
         "rule": TRANS_RULE + "pow: bases x exponents from thinner grids; powi: bases x {|n| <= 64, +-2^k, +-(2^k+-1), i32::MIN, MIN+1, MAX, MAX-1} under an iteration budget (a call cut by the budget is counted, not judged); " + TRIG_RULE + "a state is one (function, type pair, operand tuple), a transition one call under catch_unwind with the tick budget; judged: no unwinding, Err for sqrt of a negative, log of a non-positive, fractional power of a negative base; tan only where the reference says |tan x| <= 64",
-        "assumptions": ["powi with |n| up to 2^31 is linear in |n| by design; calls that exceed the iteration budget (70 000 quick, 250 000 thorough) are cut and reported as unexplored"],
+        "assumptions": ["powi with |n| up to 2^31 is linear in |n| by design; calls that exceed the iteration budget (30 000 quick, 250 000 thorough) are cut and reported as unexplored"],
     },
     "C13": {
         "require": [('sqrt', 'err'), ('sqrt', 'value'), ('sqrt', 'zero')],
